@@ -3,7 +3,7 @@
    Connection level.  Only statements + exact. *)
 From Utp Require Import Base.Prelude Wire.SeqNr Wire.Header Rtt.Rtte Mtu.SegSizes Rx.Rx Rx.Rx_Proofs
   Tx.Ring Tx.Ring_Proofs Tx.Segments Conn.Recovery Conn.Msg Conn.VSockRec Conn.VSock Conn.VSockRun
-  Conn.VObs Conn.C10_Pred Conn.C02_Pred Conn.VSock_Inv Conn.C10_Proofs Conn.C02_Proofs.
+  Conn.VObs Conn.C10_Pred Conn.C02_Pred Conn.VSock_Inv Conn.C10_Proofs Conn.C02_Proofs Conn.C02_D20.
 
 (* (d iii) a write that stored bytes wakes the dispatcher parked on the TX waker — every state *)
 Theorem c02_write_wakes_ok : forall (CC : Type) (cci : cc_iface CC) (cfg : vconfig) (s : vsock CC)
@@ -111,6 +111,20 @@ Theorem c02_zero_window_without_waker_refuted :
             (wtrace w cfg ops) = true.
 Proof. exact zero_window_without_waker_refuted. Qed.
 
+(* D20 (repaired in /repo 1233027): after an RTO rewind and a cumulative ACK of everything the FIN of
+   the idle connection was never sent; regression example on the former witness *)
+Theorem c02_fin_after_rto_rewind_regression :
+  exists w cfg ops,
+    vconfig_ok cfg = true /\ Forall op_msg_ok ops /\
+    existsb rto_rewound (wtrace w cfg ops) = true /\
+    c02_prompt cfg (wtrace w cfg ops) = true /\
+    match rev (wtrace w cfg ops) with
+    | st :: _ => emits_fin st = true /\
+                 f_last_sent_seq_nr (fs_post st) = wsub16 (f_seq_nr (fs_post st)) 1
+    | [] => False
+    end.
+Proof. exact fin_after_rto_rewind_regression. Qed.
+
 Print Assumptions c02_write_wakes_ok.
 Print Assumptions c02_drop_writer_wakes_ok.
 Print Assumptions c02_read_wakes_ok.
@@ -124,3 +138,4 @@ Print Assumptions c02_eof_flush_regression.
 Print Assumptions c02_rx_eof_flush_regression.
 Print Assumptions c02_probe_expiry_rto_regression.
 Print Assumptions c02_zero_window_without_waker_refuted.
+Print Assumptions c02_fin_after_rto_rewind_regression.
